@@ -318,8 +318,8 @@ def frozen_seq(repo, fi, e, elem, imm_names, mut):
     return False, 'stored as `%s`' % norm(e)[:60]
 
 
-def rule_R5(ctx, repo, eng, imm, mut):
-    r = ctx.rule('C09.R5', 'every slot of an immutable class holds an immutable value: sequences are tuples of immutable elements, nested objects pass through the immutable from_*',
+def rule_R5(ctx, repo, eng, imm, mut, rid='C09.R5'):
+    r = ctx.rule(rid, 'every slot of an immutable class holds an immutable value: sequences are tuples of immutable elements, nested objects pass through the immutable from_*',
                  engine='OWN', floor=30)
     imm_names = {c.name for c in imm}
     for c in imm:
@@ -383,8 +383,8 @@ def from_methods(repo, classes_):
     return out
 
 
-def rule_R6(ctx, repo, eng, imm, mut):
-    r = ctx.rule('C09.R6', 'copy constructors: identity only for exactly-immutable sources; mutable copies are deep', engine='OWN', floor=9)
+def rule_R6(ctx, repo, eng, imm, mut, rid='C09.R6'):
+    r = ctx.rule(rid, 'copy constructors: identity only for exactly-immutable sources; mutable copies are deep', engine='OWN', floor=9)
     for c, f in from_methods(repo, imm):
         if c.name not in SLOT_KINDS or f.name in ('from_bytes',):
             continue
